@@ -914,6 +914,45 @@ func c11MultiEval(c *Ctx, e *c11Env, cs c11Case, res cliOut) {
 	}
 }
 
+// ---------- interactive mode: option assignments whose VALUE contains '=' ----------
+
+// c11RunInteractive feeds `prune_from=<value>` and `proto` to pprof's interactive mode (stdin) and
+// reads the profile it writes (profile001.pb.gz in the working directory).
+func c11RunInteractive(bin, dir string, i int, p *profile.Profile, cs c11Case) c11AggOut {
+	wd, err := os.MkdirTemp(dir, fmt.Sprintf("inter-%d-", i))
+	if err != nil {
+		return c11AggOut{errs: "harness: " + err.Error()}
+	}
+	in := filepath.Join(wd, "in.pb.gz")
+	f, err := os.Create(in)
+	if err != nil {
+		return c11AggOut{errs: "harness: " + err.Error()}
+	}
+	if err := p.Write(f); err != nil {
+		f.Close()
+		return c11AggOut{errs: "harness: " + err.Error()}
+	}
+	f.Close()
+	cmd := exec.Command(bin, "-symbolize=none", in)
+	cmd.Dir = wd
+	cmd.Env = append(os.Environ(), "PPROF_BINARY_PATH="+filepath.Join(dir, "nobin"), "PPROF_TMPDIR="+wd, "HOME="+wd)
+	cmd.Stdin = strings.NewReader("prune_from=" + cs.PruneFrom + "\nproto\nquit\n")
+	var stderr bytes.Buffer
+	cmd.Stderr = &stderr
+	if err := cmd.Run(); err != nil {
+		return c11AggOut{errs: "exit: " + c06trunc(stderr.String())}
+	}
+	b, err := os.ReadFile(filepath.Join(wd, "profile001.pb.gz"))
+	if err != nil {
+		return c11AggOut{errs: "exit: no report written: " + c06trunc(stderr.String())}
+	}
+	q, err := profile.ParseData(b)
+	if err != nil {
+		return c11AggOut{errs: "parse: " + err.Error()}
+	}
+	return c11AggOut{prof: cliOut{prof: q, views: viewList(q)}}
+}
+
 // ---------- generators ----------
 
 var c11Names = []string{"d1", "d2", "d3", "k1", "kd", "u1", "u2", "main", ".d1", "d2(int)", "ns::(anonymous namespace)::d1(int)",
@@ -1048,6 +1087,21 @@ func runC11Case(c *Ctx, e *c11Env, cs c11Case) {
 		c11Simplify(c, e, cs)
 	case "noexpr":
 		c11NoExpr(c, cs)
+	case "inter":
+		p, err := ParseCanon(cs.Profile)
+		if err != nil {
+			c.Res.HarnessError = err.Error()
+			return
+		}
+		dir, err := os.MkdirTemp("", "pv-c11-")
+		if err != nil {
+			c.Res.HarnessError = err.Error()
+			return
+		}
+		defer os.RemoveAll(dir)
+		ev := cs
+		ev.Out = "proto"
+		c11AggEval(c, e, ev, c11RunInteractive(c.Pprof, dir, 0, p, cs))
 	case "multi":
 		a, err1 := ParseCanon(cs.Profile)
 		b, err2 := ParseCanon(cs.Profile2)
@@ -1133,7 +1187,7 @@ func c11NoExpr(c *Ctx, cs c11Case) {
 }
 
 func runC11(c *Ctx) {
-	c.Res.Rule = "profiles with inlined multi-line locations (match at the root-most line, in the middle, at the leaf-most line), locations shared by several samples, unsymbolized locations, empty stacks, functions with empty names and names that simplifyFunc rewrites (leading '.', argument lists, reserved '(anonymous namespace)' / 'operator()'); drop/keep expressions from a list of alternations/classes/wildcards, anchored as RemoveUninteresting does and unanchored for Prune; streams: Prune, RemoveUninteresting, PruneFrom (inputs violating the hypothesis of the _partial theorems on known-finding streams), simplifyFunc through anchored quoted names, no-expression identity, `pprof -proto` on profiles carrying drop_frames/keep_frames and with -prune_from, also combined with focus/ignore/hide/show/tagfocus expressions that match on the leaf side of the prune point (the filters must decide on the unpruned stacks), and `pprof -traces` / `-proto -noinlines` with every granularity (default, functions, files, lines, addresses, filefunctions), -noinlines, -relative_percentages on/off and -tagroot/-tagleaf (expected stacks = aggregation applied AFTER drop/keep frames, label frames and prune_from on the original names; sparse ids and id tables that are not sorted), and two-source runs (pprof a b, -base, -diff_base) with two or three sources that carry different, also empty, drop_frames/keep_frames, half of them with a source that has NO samples (first, middle or last) (the rules of the first source on the command line only apply, to every sample). non-trivial = the expressions match at least one but not all locations in use; distinct by expressions + canonical profile"
+	c.Res.Rule = "profiles with inlined multi-line locations (match at the root-most line, in the middle, at the leaf-most line), locations shared by several samples, unsymbolized locations, empty stacks, functions with empty names and names that simplifyFunc rewrites (leading '.', argument lists, reserved '(anonymous namespace)' / 'operator()'); drop/keep expressions from a list of alternations/classes/wildcards, anchored as RemoveUninteresting does and unanchored for Prune; streams: Prune, RemoveUninteresting, PruneFrom (inputs violating the hypothesis of the _partial theorems on known-finding streams), simplifyFunc through anchored quoted names, no-expression identity, `pprof -proto` on profiles carrying drop_frames/keep_frames and with -prune_from, also combined with focus/ignore/hide/show/tagfocus expressions that match on the leaf side of the prune point (the filters must decide on the unpruned stacks), and `pprof -traces` / `-proto -noinlines` with every granularity (default, functions, files, lines, addresses, filefunctions), -noinlines, -relative_percentages on/off and -tagroot/-tagleaf (expected stacks = aggregation applied AFTER drop/keep frames, label frames and prune_from on the original names; sparse ids and id tables that are not sorted), and two-source runs (pprof a b, -base, -diff_base) with two or three sources that carry different, also empty, drop_frames/keep_frames, half of them with a source that has NO samples (first, middle or last) (the rules of the first source on the command line only apply, to every sample), and the interactive mode (`prune_from=<value containing '='>` then `proto` on stdin). non-trivial = the expressions match at least one but not all locations in use; distinct by expressions + canonical profile"
 	e := &c11Env{c: c, simp: map[string]string{}}
 	if c.Replay != "" {
 		var cs c11Case
@@ -1544,5 +1598,50 @@ func runC11(c *Ctx) {
 	for i, cs := range mcs {
 		c.Res.Count(c11Key(cs)+cs.Profile2+cs.Mode, mas[i].DropFrames != mbs[i].DropFrames || mas[i].KeepFrames != mbs[i].KeepFrames)
 		c11MultiEval(c, e, cs, mouts[i])
+	}
+	// ---- interactive mode: `prune_from=<value containing '='>` then `proto`
+	nI := 40 * c.Scale
+	ics := make([]c11Case, nI)
+	ips := make([]*profile.Profile, nI)
+	for i := range ics {
+		p := genC11Profile(r, true)
+		eqNames := []string{"Key::operator==", "a=b", "x=", "Key::operator=="}
+		for j, f := range p.Function {
+			if j%2 == 0 {
+				f.Name = eqNames[r.Intn(len(eqNames))]
+				f.SystemName = f.Name
+			}
+		}
+		var buf bytes.Buffer
+		p.Write(&buf)
+		p, err = profile.ParseData(buf.Bytes())
+		if err != nil {
+			c.Res.HarnessError = "generated profile does not round-trip: " + err.Error()
+			return
+		}
+		ics[i] = c11Case{Kind: "inter", Stream: "main", Profile: Canon(p), PruneFrom: pick([]string{"operator==", "^Key::operator==$", "a=b", "=", "x=$", "^a=", "d1"})}
+		ips[i] = p
+		c.Res.Hit("inter:prune_from-value-with-equals-sign")
+	}
+	iouts := make([]c11AggOut, nI)
+	for i := range ics {
+		wg.Add(1)
+		sem <- struct{}{}
+		go func(i int) {
+			defer wg.Done()
+			defer func() { <-sem }()
+			iouts[i] = c11RunInteractive(c.Pprof, dir, i, ips[i], ics[i])
+		}(i)
+	}
+	wg.Wait()
+	for i, cs := range ics {
+		nt := false
+		if re, err := regexp.Compile(cs.PruneFrom); err == nil {
+			nt = c11Stats(c, e, ips[i], e.lineMatcher(re, nil), "inter-prunefrom")
+		}
+		c.Res.Count(c11Key(cs), nt)
+		ev := cs
+		ev.Out = "proto"
+		c11AggEval(c, e, ev, iouts[i])
 	}
 }
